@@ -86,6 +86,8 @@ def make_world(model, spec, set_env=True):
     else:
         den = spec["den"]
         w, h, d = val(spec["w"], den), val(spec["h"], den), val(spec["d"], den)
+        if kind != "space":
+            w, h, d = int(spec["w"] // den), int(spec["h"] // den), int(spec["d"] // den)      # cell counts are whole numbers
         wrap = bool(spec["wrap"])
         if kind == "space":
             env = SpaceWorld(model, w, h, d, wrap_env=wrap)
